@@ -552,3 +552,34 @@ def c18(run):
     run.assumptions = [SYMBOLIC, 'quick tier replays all 1-ESK configurations and a seeded quarter of the 2-ESK ones; thorough replays all',
                        'v4 SKESK + unrelated password is DontCare (no integrity on the wrapped key), as the property says']
     run.notes['trusted_base'] = TRUSTED
+
+
+# ---------------------------------------------------------------------------
+# C15  version alignment and criticality
+
+@prop('C15', 'model_checking')
+def c15(run):
+    cfg = lambda n, inv: f"CONSTANTS\n  MaxSeq = {n}\nSPECIFICATION Spec\nINVARIANTS {inv}\nCHECK_DEADLOCK FALSE\n"
+    run.mc('MCMsgGrammar', cfg(run.q(4, 5), 'SkippableTransparent TrailingRefused'), name='mc', timeout=run.q(300, 1800))
+    g = run.mc('MCMsgGrammar', cfg(run.q(3, 4), 'GenRules GenSeqs'), name='gen', workers=1, count=False, timeout=900)
+    cases = g.cases
+    if run.replay and run.replay.get('source_case'):
+        cases = [run.replay['source_case']]
+    for i, c in enumerate(cases):
+        c['ci'] = i
+    body, summary, oks = run.harness('c15', cases, timeout=3300)
+    run.distinct_nontrivial = summary['extra']['nontrivial']
+    run.traces_validated = summary['evaluations']
+    run.exhaustive = True
+    run.rule = ('MsgGrammar.tla holds the rule matrices (ESK kept per container; container opt-ins; session-key kind per container; key/signature '
+                'version alignment on 7 verification paths; one-pass header vs signature; unknown/known x critical subpackets; issuer-fingerprint '
+                'version; subkey versions per primary version; back-signature requirement on both import paths) with non-vacuity assumptions, and the '
+                'message grammar over packet kinds (skippables transparent, trailing packets refused) model-checked over all sequences <= 4. TLC emits '
+                'every matrix cell and every kind sequence <= 3 with the demanded verdict; the harness realises each with real packets: ESKs valid '
+                'for secrets the recipient holds in front of SED / SEIPDv1 / SEIPDv2 / GnuPG-AEAD containers, signatures with valid cryptography made '
+                'through a key that lies about its version, patched one-pass headers, forged signatures with subpacket ids 0..127, hand-built '
+                'mixed-version certificates and bindings with missing / foreign back signatures. non-trivial = realised cells')
+    run.add_samples([c for c in cases if c.get('kind') == 'esk'][7:8] + [c for c in cases if c.get('kind') == 'binding'][:1] + [c for c in cases if c.get('kind') == 'seq'][30:31])
+    run.add_samples(oks[:2])
+    run.assumptions = [SYMBOLIC, '"known" subpacket ids are the ones the library itself classifies as known after a parse (public API); the rule tested is about the unknown ones']
+    run.notes['trusted_base'] = TRUSTED
